@@ -1,6 +1,6 @@
 (** C06 — Indicator signals fire exactly under their documented conditions. *)
 From Yata Require Import Base.Prelude Base.Num Base.NumR Core.Window Core.Candle Core.Action
-  Spec.Hist Spec.MethodDefs Spec.IndicatorDefs Methods.Basic Methods.Select Indicators.Common Indicators.Set1 Indicators.Set2 Indicators.Set3 Indicators.Set4 Indicators.Set5 Proofs.Detectors Proofs.SignalProofs Proofs.SignalProofs2 Proofs.SignalProofs3 Proofs.SignalProofs4 Proofs.SignalProofs5 Proofs.SignalProofs6 Proofs.SignalProofs7 Proofs.SignalProofs8 Proofs.SignalProofs9 Proofs.Selection Proofs.MAProofs.
+  Spec.Hist Spec.MethodDefs Spec.IndicatorDefs Methods.Basic Methods.Select Indicators.Common Indicators.Set1 Indicators.Set2 Indicators.Set3 Indicators.Set4 Indicators.Set5 Proofs.Detectors Proofs.SignalProofs Proofs.SignalProofs2 Proofs.SignalProofs3 Proofs.SignalProofs4 Proofs.SignalProofs5 Proofs.SignalProofs6 Proofs.SignalProofs7 Proofs.SignalProofs8 Proofs.SignalProofs9 Proofs.SignalProofs10 Proofs.SignalProofs11 Proofs.SignalProofs12 Proofs.SignalProofs13 Proofs.SignalProofs14 Proofs.Selection Proofs.MAProofs.
 Open Scope Z_scope.
 
 Section C06.
@@ -191,6 +191,45 @@ Theorem C06_pivot_reversal_strategy lft right (c0 : candle (N := NumR)) s0 cs c 
   1 <= lft -> 1 <= right -> lft + right <= pmax - 2 -> prs_init lft right c0 = Ok s0 ->
   sigs (snd (prs_next (steps prs_next s0 (c0 :: cs)) c)) = [prs_signal lft right c0 (rev ((c0 :: cs) ++ [c]))].
 Proof. intros Hl Hr Hlr Hi. exact (prs_signal_correct lft right c0 Hl Hr Hlr s0 Hi cs c). Qed.
+(** WoodiesCCI: the bar counter held by the instance is, after every stream, the documented function of the trend values returned
+    so far - restart at +-1 on a definitional zero crossing of the trend CCI, otherwise move by the sign of the trend value - and
+    the signal fires exactly when it reaches +-s1_lag *)
+Theorem C06_woodies_cci (s0 : wcci_st (N := NumR)) cs k : wc_cross s0 = (f0, f0) ->
+  sigs (snd (wcci_next (steps wcci_next s0 cs) k)) =
+  let c := wcci_count s0 (k :: rev cs) in [a_from_i8 (b2z (Z.abs c =? wc_lag s0) * Z.sgn c)].
+Proof. intros H0. exact (wcci_signal_correct s0 H0 cs k). Qed.
+(** Kaufman: the crossing computed at every step is the definitional crossing of (price, KAMA) over the whole history; without a
+    filter it is the signal; with a filter (filter_period > 1) it is held back and released by the documented rule [kauf_rule]
+    (released when KAMA has moved from its value at the crossing by more than k * StDev(KAMA); replaced by a newer crossing) -
+    the pending signal and reference value held by the instance are that function of the history, for every stream length *)
+Theorem C06_kaufman_unfiltered (s0 : kauf_st (N := NumR)) cs k : ka_cross s0 = (f0, f0) -> kf_filter (ka_cfg s0) <= 1 ->
+  sigs (snd (kauf_next (steps kauf_next s0 cs) k)) = [kauf_cross s0 cs k].
+Proof. intros H0 Hf. exact (kaufman_unfiltered_signal s0 H0 cs k Hf). Qed.
+Theorem C06_kaufman_filtered (s0 : kauf_st (N := NumR)) cs k : ka_cross s0 = (f0, f0) -> 1 < kf_filter (ka_cfg s0) ->
+  nth 0 (sigs (snd (kauf_next (steps kauf_next s0 cs) k))) ANone = kauf_signal s0 (k :: rev cs).
+Proof. intros H0 Hf. exact (kaufman_filtered_signal s0 H0 cs k Hf). Qed.
+(** Aroon #3: the two counters are the lengths of the current runs of consecutive results in the up-over/down-under zone (resp.
+    down-over/up-under); the signal is their difference over [over_zone_period] *)
+Theorem C06_aroon_trend_strength (s0 : aroon_st (N := NumR)) cs k :
+  nth 2 (sigs (snd (aroon_next (steps aroon_next s0 cs) k))) ANone =
+  let rs := rev (run aroon_next s0 (cs ++ [k])) in
+  a_from_f (fdiv (fofZ (run_len (aroon_up_zone (ar_zone s0)) (ar_up s0) rs - run_len (aroon_down_zone (ar_zone s0)) (ar_down s0) rs)) (fofZ (ar_ozp s0))).
+Proof. exact (aroon_trend_signal s0 cs k). Qed.
+(** ChandeKrollStop #2: definitional CrossAbove of the returned stop lines (long over short), kept when short < long, signed by
+    the joint move of both stops since the previous result *)
+Theorem C06_chande_kroll_stop_cross (s0 : cks_st (N := NumR)) (p0 : R * R) cs k : ck_ca s0 = cross_new p0 ->
+  nth 1 (sigs (snd (cks_next (steps cks_next s0 cs) k))) ANone =
+  let r := snd (cks_next (steps cks_next s0 cs) k) in
+  a_from_i8 (a_to_i8 (cross_above_def (pair_hist cks_next s0 cs k p0 cks_pair)) * b2z (flt (vals r 2) (vals r 0))
+             * signi (fadd (fsub (vals r 2) (snd (cks_prev s0 cs))) (fsub (vals r 0) (fst (cks_prev s0 cs))))).
+Proof. intros H0. exact (cks_signal2_correct s0 p0 H0 cs k). Qed.
+(** AwesomeOscillator #1 (twin peaks): definitional pivots of the oscillator series, counted while the oscillator stays on one
+    side of zero; the signal fires on a pivot exactly when the count has reached conseq_peaks ([ao_counts]/[ao_rule]) *)
+Theorem C06_awesome_oscillator_twin_peaks (cfg : ao_cfg) (c0 : candle (N := NumR)) s0 cs c :
+  ao_validate cfg = true -> oc_left cfg + oc_right cfg <= pmax - 2 -> ma_len_ok (oc_ma1 cfg) -> ma_len_ok (oc_ma2 cfg) ->
+  ao_init cfg c0 = Ok s0 ->
+  nth 0 (sigs (snd (ao_next (steps ao_next s0 (c0 :: cs)) c))) ANone = a_from_i8 (fst (fst (ao_counts cfg c0 (rev ((c0 :: cs) ++ [c]))))).
+Proof. intros Hv Hlr L1 L2 Hi. exact (ao_twin_peaks_signal cfg c0 Hv Hlr L1 L2 s0 Hi cs c). Qed.
 End C06.
 
 (** signals that are a function of the values returned at the same step: the documented rule holds in EVERY state
